@@ -262,6 +262,40 @@ pub fn check(rep: &mut Report) {
             }
         }
     }
+    // explicit conversion into every product / quotient / square of two units of a derived-SI
+    // alphabet (many of them are, by definition, a power of one base unit or another named unit:
+    // N/Pa = m², J/W = s, W/V = A, J/N = m, V·A = W …), from the same quantity written in base
+    // units and from the target itself
+    {
+        let alpha = ["metre", "second", "gram", "ampere", "newton", "joule", "watt", "pascal", "volt", "coulomb", "hertz", "ohm", "kelvin", "litre", "hour"];
+        let alpha: Vec<&str> = alpha.iter().copied().filter(|u| defs.units.contains_key(*u)).collect();
+        if alpha.len() < 12 {
+            rep.machinery_error(format!("derived-SI alphabet: only {} of the units exist", alpha.len()));
+        }
+        let mut targets: Vec<(String, Dim)> = vec![];
+        for a in &alpha {
+            let da = defs.units[*a].dim.clone();
+            targets.push((format!("{a}^2"), dim_pow(&da, 2, 1)));
+            for b in &alpha {
+                if a == b {
+                    continue;
+                }
+                let db = defs.units[*b].dim.clone();
+                targets.push((format!("{a} * {b}"), dim_mul(&da, &db)));
+                targets.push((format!("{a} / {b}"), dim_mul(&da, &dim_inv(&db))));
+                if rep.tier == Tier::Thorough {
+                    targets.push((format!("{a} / {b}^2"), dim_mul(&da, &dim_pow(&db, -2, 1))));
+                    targets.push((format!("{a}^2 / {b}"), dim_mul(&dim_pow(&da, 2, 1), &dim_inv(&db))));
+                }
+            }
+        }
+        for (t, d) in targets {
+            let base_form: Vec<String> = d.iter().filter(|(_, (n, _))| *n != 0).map(|(k, (n, m))| if *m == 1 { format!("{k}^({n})") } else { format!("{k}^({n}/{m})") }).collect();
+            let base_src = if base_form.is_empty() { "3".to_string() } else { format!("(3 * {})", base_form.join(" * ")) };
+            cases.push(Case { expr: base_src, nontrivial: true, text_paths: true, target: Some(format!("({t})")) });
+            cases.push(Case { expr: format!("(40.5 * ({t}))"), nontrivial: true, text_paths: false, target: Some(format!("({t})")) });
+        }
+    }
     let n_conv = cases.len() - n_pairs - n_prefixed - n_trees;
     let n = cases.len();
     let outs: Vec<Result<Verdict, String>> = par_map(n, || Evaluator::new(base.clone()), |ev, i| judge(ev, &defs, &cases[i]));
@@ -318,7 +352,7 @@ pub fn check(rep: &mut Report) {
     rep.set("tree_cases", json!(n_trees));
     rep.set("explicit_conversion_cases", json!(n_conv));
     rep.set("results_changed_by_simplification", json!(simplified));
-    rep.rule = "every product and quotient of two standard-library units (all units^2), every product/quotient of two prefixed named SI units over the prefix alphabet {none,nano,milli,kilo,giga}, every <=3-factor term with powers over the collision alphabet, and explicit conversions; for each the raw value (hook) is compared with the displayed result (dimension, base-unit magnitude, conversion back to the raw unit) and, on a fixed subset, with the texts produced by print and string interpolation read back as input; non-trivial = cases whose displayed unit differs from the raw unit (simplification actually happened)".into();
+    rep.rule = "every product and quotient of two standard-library units (all units^2), every product/quotient of two prefixed named SI units over the prefix alphabet {none,nano,milli,kilo,giga}, every <=3-factor term with powers over the collision alphabet, and explicit conversions (every same-dimension unit pair, and into every product/quotient/square of two units of a 15-unit derived-SI alphabet from the base-unit form of the same quantity); for each the raw value (hook) is compared with the displayed result (dimension, base-unit magnitude, conversion back to the raw unit) and, on a fixed subset, with the texts produced by print and string interpolation read back as input; non-trivial = cases whose displayed unit differs from the raw unit (simplification actually happened)".into();
     rep.assumptions = vec![
         "reference = UnitDefs; tolerance 1e-9 (values), 2e-5 (6-digit texts)".into(),
         "magnitudes fixed (2.5, 40.5, 2, 3)".into(),
